@@ -374,20 +374,40 @@ func main() {
 		`q5 = 1; var r = delete q5; [r, typeof q5].join()`,
 		`function g(){ eval("function q6(){}"); var r = delete q6; return [r, typeof q6].join(); } g()`,
 		`(0,eval)("var q7 = 1"); var r = delete q7; [r, typeof q7].join()`,
+		`function q8(){}; var r = delete q8; [r, typeof q8].join()`,
+		`var q9 = 1; function t9(){ return delete q9; } [t9(), typeof q9].join()`,
+		`function t10(p10){ var r = delete p10; return [r, typeof p10].join(); } t10(1)`,
 	} {
-		o := RunJS(otto.New(), src)
-		obs := "[]"
-		if o.Err == nil && o.Panic == nil {
-			parts := strings.Split(o.Val.String(), ",")
-			if len(parts) == 2 {
-				b := map[string]string{"true": "1", "false": "0"}[parts[0]]
-				t := map[string]string{"undefined": "0", "number": "1", "function": "2"}[parts[1]]
-				if b != "" && t != "" {
-					obs = "[" + b + "; " + t + "]"
+		for route := 0; route < 3; route++ {
+			vmP := otto.New()
+			var o Outcome
+			switch route {
+			case 0:
+				o = RunJS(vmP, src)
+			case 1:
+				o = Guard(func() (otto.Value, error) {
+					sc, err := vmP.Compile("", src)
+					if err != nil {
+						return otto.Value{}, err
+					}
+					return vmP.Run(sc)
+				})
+			default:
+				o = Guard(func() (otto.Value, error) { return vmP.Eval(src) })
+			}
+			obs := "[]"
+			if o.Err == nil && o.Panic == nil {
+				parts := strings.Split(o.Val.String(), ",")
+				if len(parts) == 2 {
+					b := map[string]string{"true": "1", "false": "0"}[parts[0]]
+					t := map[string]string{"undefined": "0", "number": "1", "function": "2"}[parts[1]]
+					if b != "" && t != "" {
+						obs = "[" + b + "; " + t + "]"
+					}
 				}
 			}
+			env.Add(fmt.Sprintf("PinCase %d %s", i+1, obs), fmt.Sprintf("[route %d: Run / Compile+Run / Otto.Eval] %s => %v", route, src, o.Val), "pinned-delete-identifier", true)
 		}
-		env.Add(fmt.Sprintf("PinCase %d %s", i+1, obs), fmt.Sprintf("%s => %v", src, o.Val), "pinned-delete-identifier", true)
 	}
 	// generate every program first (one PRNG, deterministic), run them on otto in parallel, record them in order
 	type job struct {
